@@ -50,6 +50,9 @@ def alphabet(cls_name, aw):
         ops += [("aa", True), ("aa", False), ("aa", 0x3E)]
         ops += [("saa", True), ("saa", False)]  # the per-pipe function: set_auto_ack(x, 0)
     ops += [("listen", True), ("listen", False)]
+    # the radio put to sleep and woken up again (sleepy receiver / transmitter); judged by the clauses that speak about
+    # states only (CE high whenever PWR_UP=1 and PRIM_RX=1 at a return; the RX / TX clauses at later listen / open_tx_pipe calls)
+    ops += [("power", False), ("power", True)]
     ops += [("tx1",)]  # one unacknowledged transmission (leaves CE high in TX mode); offered in TX mode only
     return ops
 
@@ -68,6 +71,8 @@ def op_str(op):
         return "set_auto_ack(%s,0)" % op[1]
     if k == "tx1":
         return "send(1 byte, ask_no_ack=True)"
+    if k == "power":
+        return "power=%s" % op[1]
     return "listen=%s" % op[1]
 
 
@@ -138,16 +143,29 @@ def step(st, op, ctx):
         viol.append(("%s/%s" % (pid, clause), what))
 
     exc = None
+
+    def arg(name):
+        """the address as the caller passes it: `bytes`, or - for every other operation of the alphabet (ctx['flip'] swaps
+        the halves) - a bytearray that the caller re-uses (overwrites) as soon as the call has returned"""
+        if (ctx["opidx"][op] + ctx.get("flip", 0)) % 2:
+            return A[name]
+        buf = bytearray(A[name])
+        scratch.append(buf)
+        return buf
+
+    scratch = []
     try:
         if kind == "orx":
-            drv.open_rx_pipe(op[1], A[op[2]])
+            drv.open_rx_pipe(op[1], arg(op[2]))
             m.open_rx_pipe(op[1], A[op[2]])
         elif kind == "crx":
             drv.close_rx_pipe(op[1])
             m.close_rx_pipe(op[1])
         elif kind == "otx":
-            drv.open_tx_pipe(A[op[1]])
+            drv.open_tx_pipe(arg(op[1]))
             m.open_tx_pipe(A[op[1]])
+        elif kind == "power":
+            drv.power = op[1]
         elif kind == "aa":
             drv.auto_ack = op[1]
             m.auto_ack(op[1])
@@ -166,13 +184,16 @@ def step(st, op, ctx):
     except Exception as e:  # noqa
         exc = type(e).__name__
         v("exception:%s:%s" % (kind, exc), "%s raised %s" % (op_str(op), exc))
+    for buf in scratch:
+        for i in range(len(buf)):
+            buf[i] = (0xC3 + 29 * i) & 0xFF  # the caller's scratch buffer now holds something else
 
     # ---- CE clause, from the merged pin/SPI log of this call
     cfg, ce = cfg0, ce0
     for ent in log:
         if len(ent) == 2:  # CE edge
             ce = ent[1]
-            if not ce and (cfg & 3) == 3 and kind != "listen":
+            if not ce and (cfg & 3) == 3 and kind not in ("listen", "power"):
                 v("ce:dropped-in-rx:" + kind, "%s pulled CE low while the radio was in RX mode" % op_str(op))
         else:
             mosi = ent[1]
@@ -272,10 +293,11 @@ def step(st, op, ctx):
 
 # ---------------------------------------------------------------- work item
 def w_bfs(item, rep):
-    cls_name, aw, seed, depth, pid = item
-    ctx = dict(aw=aw, addr=addresses(seed, aw), pid=pid)
+    cls_name, aw, seed, depth, pid = item[:5]
+    flip = item[5] if len(item) > 5 else 0
     ops = alphabet(cls_name, aw)
-    part = "pipe0-%s-aw%d" % (cls_name, aw)
+    ctx = dict(aw=aw, addr=addresses(seed, aw), pid=pid, flip=flip, opidx={o: i for i, o in enumerate(ops)})
+    part = "pipe0-%s-aw%d%s" % (cls_name, aw, "-flip" if flip else "")
 
     def apply(st, op, hist):
         viol, outcome, nt = step(st, op, ctx)
@@ -286,7 +308,7 @@ def w_bfs(item, rep):
             rep.part(part, clause_evaluations=1)
         for sig, what in viol:
             rep.violation(sig, "%s [%s]" % (what, ", ".join(op_str(o) for o in hist[1:] + [op])),
-                          {"cls": cls_name, "aw": aw, "seed": seed, "ops": hist[1:] + [op], "addr": ctx["addr"]})
+                          {"cls": cls_name, "aw": aw, "seed": seed, "flip": flip, "ops": hist[1:] + [op], "addr": ctx["addr"]})
         if len(rep.samples) < 2 and nt is not None and len(hist) >= 3:
             rep.sample({"part": part, "ops": [op_str(o) for o in hist[1:] + [op]], "outcome": outcome})
 
@@ -303,7 +325,9 @@ def w_bfs(item, rep):
 def run_pipe0(tier, seed, rep, cls_name="full", pid=PID, only=None):
     depth = 6 if tier == "quick" else 16  # (the state space closes at depth 12..13: see notes in the evidence)
     # quick: depth 6 for 5-byte addresses, 5 for the (larger) alphabets of address widths 4 and 3
-    items = [(cls_name, aw, seed, depth if (tier != "quick" or aw == 5) else depth - 1, pid) for aw in (5, 4, 3)]
+    items = [(cls_name, aw, seed, depth if (tier != "quick" or aw == 5) else depth - 1, pid, 0) for aw in (5, 4, 3)]
+    # the other half of the address arguments passed as re-used bytearrays (quick: 5-byte addresses, one level less)
+    items += [(cls_name, aw, seed, depth - 1 if tier == "quick" else depth, pid, 1) for aw in ((5,) if tier == "quick" else (5, 4, 3))]
     if only:
         items = [it for it in items if ("aw%d" % it[1]) in only]
     pmap(w_bfs, items, rep)
@@ -312,7 +336,9 @@ def run_pipe0(tier, seed, rep, cls_name="full", pid=PID, only=None):
         rep.notes["closure"] = ("no new state at depth %s for %s: every longer call sequence over this alphabet only revisits "
                                 "explored states, so the result holds for sequences of any length" % (
                                     "/".join(str(rep.parts[k]["depth_completed"]) for k in closed), ", ".join(closed)))
-    return dict(depth={("aw%d" % it[1]): it[3] for it in items}, address_lengths=[it[1] for it in items],
+    return dict(depth={("aw%d%s" % (it[1], "-flip" if it[5] else "")): it[3] for it in items}, address_lengths=sorted({it[1] for it in items}),
+                address_arguments="every other open_rx_pipe / open_tx_pipe operation of the alphabet passes a bytearray that the caller overwrites right after "
+                                  "the call (the '-flip' runs swap the halves); the others pass bytes",
                 alphabet={("aw%d" % aw): [op_str(o) for o in alphabet(cls_name, aw)] for aw in (5, 3)})
 
 
@@ -343,7 +369,8 @@ def replay(data):
     r = data["replay"]
     pid = data.get("property", PID)
     aw = r["aw"]
-    ctx = dict(aw=aw, addr=addresses(r["seed"], aw), pid=pid)
+    ops_all = alphabet(r["cls"], aw)
+    ctx = dict(aw=aw, addr=addresses(r["seed"], aw), pid=pid, flip=r.get("flip", 0), opidx={o: i for i, o in enumerate(ops_all)})
     st = mk_state(r["cls"], aw)
     want = data.get("signature")
     found = []
